@@ -212,9 +212,17 @@ def parser_table(ctx, p):
         b = p.blocks[bb]
         for i, s in enumerate(b["stmts"]):
             if s["k"] == "assign" and s["place"]["local"] == mode_local and not s["place"]["proj"]:
+                got = set()
                 for o in p._rv_origins(s["rv"], (), bb, i, frozenset()):
                     if o[0][0] == "agg":
-                        eff.add(("mode", o[0][4].split("::")[-1]))
+                        got.add(o[0][4].split("::")[-1])
+                if len(got) > 1:
+                    # `mode = next_mode(..)?`: the new mode is a value computed elsewhere and merged
+                    # here; which one it is depends on the path taken there, which this
+                    # block-by-block reading does not follow
+                    raise AnalysisError("idiom not recognised: the parser mode is assigned a value that can be any of %s at %s (the transition table is read from direct assignments of one mode)" % (sorted(got), p.where(bb, i)))
+                for nm2 in got:
+                    eff.add(("mode", nm2))
             if s["k"] == "assign" and s["rv"]["k"] == "aggregate" and s["rv"]["kind"]["k"] == "adt" and s["rv"]["kind"]["adt"] == PERR:
                 eff.add(("err", s["rv"]["kind"]["variant"]))
         if bb in p.call_at:
